@@ -71,6 +71,47 @@ Definition normalize_chunk (b : bytes) : bytes :=
   let b1 := drop_cr b in
   if mem_byte 27 b1 then rx_remove_all rx_ansi_pattern b1 else b1.
 
+(* ---------- callbacks (driver/generic/sendwithcallbacks.go) ---------- *)
+
+Record callback := mkCb {
+  cb_contains : bytes; cb_not_contains : bytes; cb_re : option re;
+  cb_insensitive : bool; cb_reset : bool; cb_once : bool; cb_complete : bool;
+  cb_has_next_timeout : bool;
+  cb_answer : option bytes       (* what the user's function does: WriteAndReturn(answer), or nothing *)
+}.
+
+(* Callback.check, after the fix of the inverted not-contains test (see KNOWN_FINDINGS):
+   contains (lower-cased buffer and needle unless case-sensitive) or regex match, and not
+   containing the not-contains text *)
+Definition cb_check (c : callback) (b : bytes) : bool :=
+  let b' := if cb_insensitive c then to_lower b else b in
+  let lower x := if cb_insensitive c then to_lower x else x in
+  let blocked := match cb_not_contains c with
+                 | [] => false
+                 | nc => contains (lower nc) b'
+                 end in
+  let by_text := match cb_contains c with [] => false | t => contains (lower t) b' end in
+  let by_re := match cb_re c with Some r => rx_match r b' | None => false end in
+  (by_text && negb blocked) || (by_re && negb blocked).
+
+(* the same with the original (inverted) test, kept to state what was wrong *)
+Definition cb_check_unfixed (c : callback) (b : bytes) : bool :=
+  let b' := if cb_insensitive c then to_lower b else b in
+  let lower x := if cb_insensitive c then to_lower x else x in
+  let blocked := match cb_not_contains c with
+                 | [] => false
+                 | nc => negb (contains (lower nc) b')
+                 end in
+  let by_text := match cb_contains c with [] => false | t => contains (lower t) b' end in
+  let by_re := match cb_re c with Some r => rx_match r b' | None => false end in
+  (by_text && negb blocked) || (by_re && negb blocked).
+
+Fixpoint first_firing (cbs : list callback) (b : bytes) (i : nat) : option (nat * callback) :=
+  match cbs with
+  | [] => None
+  | c :: t => if cb_check c b then Some (i, c) else first_firing t b (S i)
+  end.
+
 (* ---------- the four ReadUntil conditions ---------- *)
 
 Inductive cond :=
@@ -78,7 +119,8 @@ Inductive cond :=
 | CExplicit (input : bytes)
 | CPrompt
 | CAnyPrompt (pats : list re)
-| CWholeAny (pats : list re).    (* login loops: patterns on the whole buffer, no window *)
+| CWholeAny (pats : list re)     (* login loops: patterns on the whole buffer, no window *)
+| CCallbacks (cbs : list callback) (prefix : bytes).   (* some callback fires on prefix ++ buffer *)
 
 Definition cond_holds (cfg : chan_cfg) (c : cond) (rb : bytes) : bool :=
   match c with
@@ -87,6 +129,7 @@ Definition cond_holds (cfg : chan_cfg) (c : cond) (rb : bytes) : bool :=
   | CPrompt => rx_match (c_prompt cfg) (process_read_buf rb (c_depth cfg))
   | CAnyPrompt pats => let prb := process_read_buf rb (c_depth cfg) in existsb (fun p => rx_match p prb) pats
   | CWholeAny pats => existsb (fun p => rx_match p rb) pats
+  | CCallbacks cbs prefix => match first_firing cbs (prefix ++ rb) 0 with Some _ => true | None => false end
   end.
 
 (* ---------- operation language ---------- *)
@@ -97,7 +140,7 @@ Inductive prog (R : Type) : Type :=
 | Ret (r : R)
 | Fail (e : err)
 | Write (b : bytes) (redacted : bool) (k : prog R)
-| Until (c : cond) (k : bytes -> prog R)
+| Until (c : cond) (k : bytes -> prog R) (h : err -> prog R)   (* h: what a deadline / connection loss at this read continues with *)
 | Note (tag : N) (data : bytes) (k : prog R).     (* a log line (tag = call site, data = payload) *)
 Arguments Ret {R}. Arguments Fail {R}. Arguments Write {R}. Arguments Until {R}. Arguments Note {R}.
 
@@ -106,7 +149,7 @@ Fixpoint bind {A B} (p : prog A) (f : A -> prog B) : prog B :=
   | Ret r => f r
   | Fail e => Fail e
   | Write b red k => Write b red (bind k f)
-  | Until c k => Until c (fun rb => bind (k rb) f)
+  | Until c k h => Until c (fun rb => bind (k rb) f) (fun e => bind (h e) f)
   | Note t d k => Note t d (bind k f)
   end.
 
@@ -116,7 +159,7 @@ Fixpoint catch {A} (p : prog A) (h : err -> prog A) : prog A :=
   | Ret r => Ret r
   | Fail e => h e
   | Write b red k => Write b red (catch k h)
-  | Until c k => Until c (fun rb => catch (k rb) h)
+  | Until c k h0 => Until c (fun rb => catch (k rb) h) (fun e => catch (h0 e) h)
   | Note t d k => Note t d (catch k h)
   end.
 
@@ -136,7 +179,7 @@ Definition echo_cond (o : op_opts) (input : bytes) : cond :=
 Definition until_echo {R} (o : op_opts) (input : bytes) (k : bytes -> prog R) : prog R :=
   match input, o_exact o with
   | [], false => k []
-  | _, _ => Until (echo_cond o input) k
+  | _, _ => Until (echo_cond o input) k Fail
   end.
 
 (* Channel.SendInputB *)
@@ -150,12 +193,12 @@ Definition send_input (cfg : chan_cfg) (input : bytes) (o : op_opts) : prog byte
                      | [] => CPrompt
                      | ps => CAnyPrompt (c_prompt cfg :: ps)
                      end in
-            Until c (fun nb => Ret (process_out cfg nb (o_strip o)))))).
+            Until c (fun nb => Ret (process_out cfg nb (o_strip o))) Fail))).
 
 (* Channel.GetPrompt: write return, read until prompt, Find the prompt in what was read *)
 Definition get_prompt (cfg : chan_cfg) : prog bytes :=
   Write (c_ret cfg) false
-    (Until CPrompt (fun b => Ret (match rx_find (c_prompt cfg) b with Some p => p | None => [] end))).
+    (Until CPrompt (fun b => Ret (match rx_find (c_prompt cfg) b with Some p => p | None => [] end)) Fail).
 
 Record ievent := mkEv { ev_input : bytes; ev_response : option re; ev_hidden : bool }.
 
@@ -182,10 +225,48 @@ Fixpoint interactive_loop (cfg : chan_cfg) (o : op_opts) (events : list ievent) 
                           if existsb (fun p => rx_match p pb) (o_complete o)
                           then Ret (process_out cfg acc false)
                           else interactive_loop cfg o rest acc
-                      end))))
+                      end) Fail)))
   end.
 Definition send_interactive (cfg : chan_cfg) (events : list ievent) (o : op_opts) : prog bytes :=
   interactive_loop cfg o events [].
+
+(* SendWithCallbacks / handleCallbacks / executeCallback.  [b] is the output accumulated since the
+   last reset, [fb] the whole dialogue, [fired] the indices of once-callbacks already triggered.
+   Each handleCallbacks call scans the callbacks on the current buffer even before new bytes
+   arrive (the poll returns nothing and the scan runs anyway), then after every chunk.
+   TAG_CB notes record (index, argument) of every callback that ran. *)
+Definition TAG_CB : N := 2.
+Fixpoint cb_loop (fuel : nat) (cfg : chan_cfg) (cbs : list callback) (b fb : bytes) (fired : list nat) : prog bytes :=
+  match fuel with
+  | O => Fail EOperation
+  | S f =>
+      let exec (i : nat) (c : callback) (b fb : bytes) : prog bytes :=
+        if cb_once c && existsb (Nat.eqb i) fired then Fail EOperation
+        else
+          let fired' := if cb_once c then i :: fired else fired in
+          Note TAG_CB (print_dec (N.of_nat i) ++ [58] ++ b)
+            ((match cb_answer c with
+              | Some a => fun k => Write a false (Write (c_ret cfg) false k)
+              | None => fun k => k
+              end)
+               (if cb_complete c then Ret fb
+                else cb_loop f cfg cbs (if cb_reset c then [] else b) fb fired')) in
+      match first_firing cbs b 0 with
+      | Some (i, c) => exec i c b fb
+      | None =>
+          Until (CCallbacks cbs b)
+                (fun rb => match first_firing cbs (b ++ rb) 0 with
+                           | Some (i, c) => exec i c (b ++ rb) (fb ++ rb)
+                           | None => Fail EOperation      (* unreachable: the condition held *)
+                           end) Fail
+      end
+  end.
+
+Definition send_with_callbacks (cfg : chan_cfg) (input : bytes) (cbs : list callback) : prog bytes :=
+  (match input with
+   | [] => fun k => k
+   | _ => fun k => Write input false (Write (c_ret cfg) false k)
+   end) (cb_loop 64 cfg cbs [] [] []).
 
 (* ---------- interpreter over an explicit schedule ---------- *)
 
@@ -243,10 +324,10 @@ Section Run.
         | Write b red k =>
             let '(d', out) := feed (s_dev s) b in
             set_pc (mkSys d' (s_pending s ++ out) (s_queue s) (s_acc s) k (s_wlog s ++ [(b, red)]) (s_notes s) (s_reader s)) k
-        | Until c k =>
+        | Until c k h =>
             match s_reader s with
-            | RErr => set_pc (mkSys (s_dev s) (s_pending s) (s_queue s) [] (Fail ETransport) (s_wlog s) (s_notes s) RRun) (Fail ETransport)
-            | RExited => set_pc (mkSys (s_dev s) (s_pending s) (s_queue s) [] (Fail EConnection) (s_wlog s) (s_notes s) RExited) (Fail EConnection)
+            | RErr => set_pc (mkSys (s_dev s) (s_pending s) (s_queue s) [] (h ETransport) (s_wlog s) (s_notes s) RRun) (h ETransport)
+            | RExited => set_pc (mkSys (s_dev s) (s_pending s) (s_queue s) [] (h EConnection) (s_wlog s) (s_notes s) RExited) (h EConnection)
             | RRun =>
                 match s_queue s with
                 | [] => s
@@ -261,7 +342,7 @@ Section Run.
         end
     | Deadline =>
         match s_pc s with
-        | Until _ _ => set_pc (mkSys (s_dev s) (s_pending s) (s_queue s) [] (Fail ETimeout) (s_wlog s) (s_notes s) (s_reader s)) (Fail ETimeout)
+        | Until _ _ h => set_pc (mkSys (s_dev s) (s_pending s) (s_queue s) [] (h ETimeout) (s_wlog s) (s_notes s) (s_reader s)) (h ETimeout)
         | _ => s
         end
     | Eof => mkSys (s_dev s) (s_pending s) (s_queue s) (s_acc s) (s_pc s) (s_wlog s) (s_notes s) RExited
